@@ -280,9 +280,13 @@ func c08NavigationTarget(ctx *core.Ctx, r *core.Report) {
 		n++
 		st := named.Underlying().(*types.Struct)
 		fsMap := fieldStores(al, st)
-		_, has := fsMap["Request.Target"]
+		tv, has := fsMap["Request.Target"]
 		r.Ob("navigation-marks-requests", "node.Selection.findSlice/"+named.Obj().Name(), ctx.Pos(al.Pos()), has,
 			"a request issued while walking a path does not set Request.Target: IsNavigation() is false and read filters (depth, fields, content…) are applied to the steps of the path")
+		if has {
+			r.Ob("navigation-marks-requests", "node.Selection.findSlice/"+named.Obj().Name()+"/target-on-every-step", ctx.Pos(al.Pos()), !mayBeNilValue(tv, map[ssa.Value]bool{}),
+				"the Target of a navigation request can be nil on some step (the last one, say): that step is not recognised as navigation and the read filters of the same query (content, depth, fields…) are applied to it, so Find returns nothing for a node that is there")
+		}
 	})
 	r.Floor("navigation-marks-requests", n, 2)
 }
@@ -332,4 +336,40 @@ func c08SegmentEquality(ctx *core.Ctx, r *core.Report) {
 		}
 	}
 	r.Ob("segment-equality", "node.Path.equalSegment", ctx.Pos(f.Pos()), ok, msg)
+}
+
+// mayBeNilValue: can v be the nil constant on some path (through phis and locals)?
+func mayBeNilValue(v ssa.Value, seen map[ssa.Value]bool) bool {
+	if v == nil || seen[v] {
+		return false
+	}
+	seen[v] = true
+	switch x := v.(type) {
+	case *ssa.Const:
+		return x.IsNil()
+	case *ssa.Phi:
+		for _, e := range x.Edges {
+			if mayBeNilValue(e, seen) {
+				return true
+			}
+		}
+	case *ssa.UnOp:
+		if al, ok := x.X.(*ssa.Alloc); ok && x.Op == token.MUL {
+			stores := 0
+			for _, ref := range *al.Referrers() {
+				if st, ok := ref.(*ssa.Store); ok && st.Addr == ssa.Value(al) {
+					stores++
+					if mayBeNilValue(st.Val, seen) {
+						return true
+					}
+				}
+			}
+			return stores == 0 // a zero-valued local
+		}
+	case *ssa.MakeInterface:
+		return mayBeNilValue(x.X, seen)
+	case *ssa.ChangeInterface:
+		return mayBeNilValue(x.X, seen)
+	}
+	return false
 }
